@@ -93,13 +93,14 @@ CLAIMED = {
         text="Partial claim (term level). Unbounded: 15 language inclusions decided by z3's regex theory for strings of any length - IRIREF, "
              "STRING_LITERAL_QUOTE, literal with datatype/language, LANGTAG, BLANK_NODE_LABEL, INTEGER/DECIMAL/DOUBLE and their precedence, "
              "a whole N-Triples line against the token sequence read from parseline's AST, BNode()/URIRef.n3() output within the grammar; "
+             "blank node labels of a TriG document (two labels ending in a symbolic code point, through the real TrigSinkParser into a Dataset): same label <=> same node, also across graph blocks; "
              "relative IRI resolution (notation3.join) against RFC 3986 for symbolic path segments by shape; xml:lang scoping of the RDF/XML SAX handler with symbolic attribute values; "
              "witnesses are replayed through the real parser. Bounded: nt._quote_encode on every string of length <=3 (thorough 4) is a valid "
              "STRING_LITERAL_QUOTE decoding to the input; ntriples.unquote and SinkParser.strconst agree with a grammar-derived decoder on "
              "a<escape>b for symbolic a, b and 8-14 enumerated escapes in all four quoting styles.",
         note="Trusted base: z3 sequence/regex theory (characters up to U+2FFFF), the ~150-line re-parse-tree translator (unsupported "
              "constructs make an obligation inconclusive), the transcribed W3C productions, CrossHair's str model, the grammar-derived "
-             "reference decoder. Statement-level grammar, RDF/XML, JSON-LD, TriG, input-source handling are outside the claim.",
+             "reference decoder. Statement-level grammar beyond the four label-scope shapes, RDF/XML, JSON-LD, input-source handling are outside the claim.",
         ref="DESIGN.md section 3 C05"),
     "C03": dict(
         technique="CrossHair symbolic strings through rdflib's literal writers and readers (per-term text round trip)",
